@@ -32,8 +32,8 @@ PairSet(ps) == {<<ps[i][1], IF ps[i][2] > 0 THEN Norm(ps[i][2]) ELSE ps[i][2]>> 
 
 OpRules(e, m2) ==
   LET k == e.k IN
-     (IF e.panic # "" THEN {"panic"} ELSE {})
-  \cup (IF e.e = "put" /\ e.r # (IF cfg.imm /\ kv[k] # 0 THEN "exists" ELSE "") THEN {"put-result"} ELSE {})
+  IF e.panic # "" THEN {"panic"} ELSE
+     (IF e.e = "put" /\ e.r # (IF cfg.imm /\ kv[k] # 0 THEN "exists" ELSE "") THEN {"put-result"} ELSE {})
   \cup (IF e.e \in {"get", "has", "size", "rem", "flush", "iter"} /\ e.r # "" THEN {e.e \o "-error"} ELSE {})
   \cup (IF e.e = "get" /\ e.r = "" /\ ~(e.found = (kv[k] # 0) /\ (e.found => (e.val > 0 /\ Norm(e.val) = kv[k]))) THEN {"get-result"} ELSE {})
   \cup (IF e.e = "has" /\ e.r = "" /\ e.found # (kv[k] # 0) THEN {"has-result"} ELSE {})
